@@ -259,26 +259,61 @@ class Check:
         return os.path.join(OCAML, 'kvm')
 
     # ---- running cases ------------------------------------------------------------------
-    def run_lines(self, exe, lines, timeout=600, env=None, args=()):
-        """Feed case lines to a line-oriented runner, return its output lines (padded/truncated to len(lines))."""
+    def run_lines(self, exe, lines, timeout=600, env=None, args=(), case_timeout=None):
+        """Feed case lines to a line-oriented runner, return its output lines (padded/truncated to len(lines)).
+        A runner that dies, or that does not answer one case within [case_timeout] seconds (a hang), gets that case
+        marked 'CRASH ...' / 'CRASH rc=-999 TIMEOUT' and is restarted on the remaining cases."""
+        import threading, queue
+        if case_timeout is None:
+            case_timeout = float(os.environ.get('KV_CASE_TIMEOUT', '150'))
+        case_timeout = min(case_timeout, timeout)
         data = ('\n'.join(lines) + '\n').encode()
+        p = subprocess.Popen([exe] + list(args), stdin=subprocess.PIPE, stdout=subprocess.PIPE, stderr=subprocess.PIPE, env=env)
+        q = queue.Queue()
+        errbuf = []
+        def feed():
+            try:
+                p.stdin.write(data); p.stdin.close()
+            except Exception:
+                pass
+        def read_out():
+            for ln in p.stdout:
+                q.put(ln)
+            q.put(None)
+        def read_err():
+            try:
+                errbuf.append(p.stderr.read())
+            except Exception:
+                pass
+        ths = [threading.Thread(target=f, daemon=True) for f in (feed, read_out, read_err)]
+        for t in ths: t.start()
+        out = []
+        t_end = time.time() + timeout
+        timed_out = False
+        while len(out) < len(lines):
+            try:
+                ln = q.get(timeout=max(0.1, min(case_timeout, t_end - time.time())))
+            except queue.Empty:
+                timed_out = True
+                break
+            if ln is None:
+                break
+            out.append(ln.decode('latin-1').rstrip('\n'))
+        if timed_out:
+            p.kill()
         try:
-            p = subprocess.run([exe] + list(args), input=data, stdout=subprocess.PIPE, stderr=subprocess.PIPE, timeout=timeout, env=env)
-            out = p.stdout.decode('latin-1').split('\n')
-            if out and out[-1] == '':
-                out.pop()
-            rc = p.returncode
-            err = p.stderr.decode('latin-1')
-        except subprocess.TimeoutExpired as e:
-            out = (e.stdout or b'').decode('latin-1').split('\n')
-            rc = -999
-            err = 'TIMEOUT'
+            p.wait(timeout=30)
+        except Exception:
+            p.kill()
+        rc = -999 if timed_out else (p.returncode if p.returncode is not None else -998)
+        ths[2].join(timeout=5)
+        err = 'TIMEOUT' if timed_out else (errbuf[0] or b'').decode('latin-1') if errbuf else ''
         if len(out) < len(lines):
-            # the runner died on case len(out): mark it and continue after it
+            # the runner died (or hung) on case len(out): mark it and continue after it
             crashed_at = len(out)
             tag = 'CRASH rc=%d %s' % (rc, self.crash_kind(err))
             rest = lines[crashed_at + 1:]
-            more = self.run_lines(exe, rest, timeout, env, args) if rest else []
+            more = self.run_lines(exe, rest, max(1, t_end - time.time()) if timed_out else timeout, env, args, case_timeout) if rest else []
             out = out + [tag] + more
         return out[:len(lines)]
 
